@@ -346,6 +346,8 @@ def main():
                 for cid, code in fails:
                     failures.append((v, cid, code, jsonl_cache[v].get(cid, "{}")))
 
+    if check_ok and harness_ok and evaluations == 0 and not cfg.get("no_correspondence"):
+        broken.append({"kind": "broken-correspondence", "detail": "the harness produced no cases for " + prop})
     # 4. verdict
     known = load_known(prop)
     known_hits, new_fail = [], []
